@@ -181,7 +181,7 @@ def _mk_prof(cls):
                          error=err)
 
 
-def _prof_check(cls, hist):
+def _prof_check(cls, hist, twin=False):
     base = _mk_prof(cls)
     ref = dict(profile=np.array(base.profile),
                profile_error=np.array(base.profile_error))
@@ -207,7 +207,7 @@ def _prof_check(cls, hist):
                 if op == 'data_profile' and cls != 'rp':
                     continue
                 v = np.array(getattr(obj, op))
-                exp = ref[op] / norm
+                exp = ref[op] / (1.0 if twin else norm)
                 if not np.allclose(v, exp, rtol=1e-10, atol=0):
                     return (f'{op} after {hist[:k]} = {v[:3]}... expected '
                             f'fresh/normalisation = {exp[:3]}...')
@@ -235,7 +235,7 @@ def _run_prof(case):
             hist.append(op)
         ctx.stats.obligations += 1
         cnt['n'] += 1
-        msg = _prof_check(case['cls'], hist)
+        msg = _prof_check(case['cls'], hist, twin=bool(case.get('twin')))
         if msg is None:
             ctx.stats.unsat += 1
         else:
@@ -589,6 +589,8 @@ def cases(tier, seed):
     for cls in ('rp', 'cog'):
         cs.append(dict(kind='prof', name=f'profile-{cls}', cls=cls,
                        len=4 if tier == 'quick' else 5))
+    cs.append(dict(kind='prof', name='profile-twin', cls='rp', len=3,
+                   twin=True))
     for name in _aper_specs():
         cs.append(dict(kind='aper', name=f'aperture-{name}', aper=name,
                        len=3 if tier == 'quick' else 4))
